@@ -94,9 +94,11 @@ Proof.
   - destruct sc as [|[n ewd|] r].
     + inversion H; subst. cbn [sdata ssched app length].
       repeat split; auto; try lia. intros _ Hx; discriminate.
-    + inversion H; subst. cbn [sdata ssched app length].
-      destruct Hok as (_ & _ & Hok).
-      repeat split; auto; try lia. intros _ Hx; discriminate.
+    + destruct Hok as (_ & _ & Hok). destruct n as [|n].
+      * inversion H; subst. cbn [sdata ssched app length].
+        repeat split; auto; try lia. intros _ _. exists ewd. reflexivity.
+      * inversion H; subst. cbn [sdata ssched app length].
+        repeat split; auto; try lia. intros _ Hx; discriminate.
     + destruct Hok as (Hf & _). discriminate.
   - destruct sc as [|[n ewd|] r].
     + inversion H; subst. cbn [sdata ssched length].
